@@ -11,6 +11,8 @@
 (*   tcl    transports closed                         reg    ClientRegistry.connMap            *)
 (*   auth   ControlConnection.ClientID if .Authenticated ("none" otherwise)                    *)
 (*   pend   ControlConnection.PendingChallenge as the index of the nonce (0 = none)            *)
+(*   chalid the client id named by the phase-1 message the pending challenge was issued for ("none"   *)
+(*          without one): the code does not keep it - it is what makes a phase 2 in or out of order  *)
 (*   nn     number of challenges issued on the connection so far (nonce k of c = <<c,k>>)      *)
 (*   idx    ClientRegistry.clientIDMap (by connection id; "none" = no entry)                   *)
 (*   ord    registered control connections by ControlConnection.CreatedAt (oldest first)        *)
@@ -59,6 +61,7 @@ CONSTANTS Conn,      \* sequence of connection names, accepted in this order, e.
                      \*   "splitUpdateAuth"  UpdateAuth = lookup under the read lock, then index write under the write lock
                      \*   "closeNeedsCloud"  RemoveControlConnection keeps the registry entry when the cloud-control notification fails
                      \*   "kickSendFirst"    KickOldConnection = lookup, send the kick, then delete index entry and connection unconditionally
+                     \*   "removeDropsForeignIndex"  removeConnectionLocked deletes clientIDMap[conn.ClientID] without checking that it points at conn
                      \*   "reloadDropsPermanent" / "reloadDropsTemporary" / "reloadDropsRanges"  IPManager.loadListFromStorage skips the
                      \*                      persisted blacklist records of that shape (zero expiry date / running expiry date / range key)
                      \*   "whitelistAny"     a whitelist entry for one address lets every address pass the IPManager
@@ -66,6 +69,8 @@ CONSTANTS Conn,      \* sequence of connection names, accepted in this order, e.
                      \*   "blankSkipsVerify" a record without an encrypted secret is accepted without verification in phase 2
                      \*   "oldKeyAccepted"   the verifier still accepts the secret that ResetSecretKey replaced
                      \*   "deletedStillKnown" the handler still finds the record of a deleted client (a copy that is never invalidated)
+                     \*   "phase2SkipsIdentityCheck"  the one-identity check (patches/C07-1) runs where an exchange starts (first connect,
+                     \*                      phase 1) but not on phase-2 messages
                      \*   "cleanupDropsPermanent" / "cleanupDropsLiveTemp"  BruteForceProtector.cleanup deletes ban records without an
                      \*                      expiry date / temporary ban records that are still running
                      \*   "ipCleanupDropsPermanent" / "ipCleanupDropsLiveTemp"  the same for IPManager.cleanup and the blacklist
@@ -104,8 +109,12 @@ AuthOf(s, c) == IF c \in s.reg THEN s.auth[c] ELSE None
 DropIdx(s, d) == [X \in ClientS |-> IF s.idx[X] = d /\ s.auth[d] = X THEN None ELSE s.idx[X]]
 
 \* ClientRegistry.Remove -> removeConnectionLocked: closes the stream, conditional index delete
+\* (fault "removeDropsForeignIndex": the index entry of the connection's client is deleted whichever connection it points at)
+RemDropIdx(s, d) == IF "removeDropsForeignIndex" \in Faults
+                    THEN [X \in ClientS |-> IF s.auth[d] = X THEN None ELSE s.idx[X]]
+                    ELSE DropIdx(s, d)
 Remove(s, d) == IF d \notin s.reg THEN s
-                ELSE [s EXCEPT !.tcl = @ \cup {d}, !.reg = @ \ {d}, !.idx = DropIdx(s, d)]
+                ELSE [s EXCEPT !.tcl = @ \cup {d}, !.reg = @ \ {d}, !.idx = RemDropIdx(s, d)]
 
 \* ClientRegistry.Register via handleHandshake's get-or-create: a fresh ControlConnection; at
 \* the control-connection cap the oldest registered connection is evicted first
@@ -114,7 +123,7 @@ Live(s) == SelectSeq(s.ord, LAMBDA d : d \in s.reg)
 GetOrCreate(s, c) ==
   IF c \in s.reg THEN s
   ELSE LET s1 == IF MaxCtl > 0 /\ Cardinality(s.reg) >= MaxCtl /\ Live(s) # <<>> THEN Remove(s, Live(s)[1]) ELSE s
-       IN [s1 EXCEPT !.reg = @ \cup {c}, !.auth[c] = None, !.pend[c] = 0, !.ord = Append(Live(s1), c)]
+       IN [s1 EXCEPT !.reg = @ \cup {c}, !.auth[c] = None, !.pend[c] = 0, !.chalid[c] = None, !.ord = Append(Live(s1), c)]
 
 \* BruteForceProtector.RecordFailure (+ banIP at the threshold)
 \* ("PermBan" in Ops: the protector is configured with PermanentBanAt = MaxFailures - the ban that accumulated failed
@@ -148,6 +157,7 @@ Handler(s0, c, m) ==
   IN
   IF Refused(s, c) THEN [s |-> s, out |-> "fail", id |-> None]
   ELSE IF "oneIdentity" \in Fixes /\ s.auth[c] # None /\ (m.k = "FC" \/ m.id # s.auth[c])
+          /\ ~("phase2SkipsIdentityCheck" \in Faults /\ m.k = "P2")
     THEN [s |-> s, out |-> "fail", id |-> None]
   ELSE IF m.k = "FC" THEN
     LET X == NextClient(s) IN
@@ -157,12 +167,12 @@ Handler(s0, c, m) ==
   ELSE IF m.id \in s.expired THEN [s |-> s, out |-> "fail", id |-> m.id]
   ELSE IF m.k = "P1" THEN
     IF m.id \in s.blank THEN [s |-> s, out |-> "fail", id |-> m.id]   \* "client credentials not configured" (no failure recorded)
-    ELSE [s |-> [s EXCEPT !.nn[c] = @ + 1, !.pend[c] = s.nn[c] + 1], out |-> "chal", id |-> m.id]
+    ELSE [s |-> [s EXCEPT !.nn[c] = @ + 1, !.pend[c] = s.nn[c] + 1, !.chalid[c] = m.id], out |-> "chal", id |-> m.id]
   ELSE \* P2
     IF s.pend[c] = 0 THEN [s |-> RecFail(s, c), out |-> "fail", id |-> m.id]
     ELSE IF Verifies(s, c, m)
-      THEN [s |-> [s EXCEPT !.pend[c] = 0, !.auth[c] = m.id, !.fails[c] = 0], out |-> "ok", id |-> m.id]
-      ELSE [s |-> RecFail([s EXCEPT !.pend[c] = 0], c), out |-> "fail", id |-> m.id]
+      THEN [s |-> [s EXCEPT !.pend[c] = 0, !.chalid[c] = None, !.auth[c] = m.id, !.fails[c] = 0], out |-> "ok", id |-> m.id]
+      ELSE [s |-> RecFail([s EXCEPT !.pend[c] = 0, !.chalid[c] = None], c), out |-> "fail", id |-> m.id]
 
 \* does handleHandshake enter its registry section after the handler returned without error?
 Enters(s, c, m, out) == out # "fail" /\ m.type = "control" /\ AuthOf(s, c) # None
@@ -238,6 +248,9 @@ Out(h) == CASE Emit = "all" -> PrintT("BEH " \o ToJson(h))
 \* not exempted by the operator's whitelist
 Barred(s, c) == c \in s.banned \/ c \in s.banP \/ ((c \in s.black \/ c \in s.blackP) /\ c \notin s.whiteP)
 
+Flips(s, t, c, m, out) == /\ out = "ok" /\ m.k = "P2" /\ s.chalid[c] # m.id
+                          /\ AuthOf(s, c) # None /\ AuthOf(t, c) \notin {None, AuthOf(s, c)}
+
 \* step properties of C03 evaluated on a sequential handshake step s -> t on connection c
 StepViol(s, t, c, m, out) ==
   LET ch == {X \in ClientS : t.idx[X] # s.idx[X]} IN
@@ -248,9 +261,16 @@ StepViol(s, t, c, m, out) ==
   \cup (IF out = "ok" /\ m.k = "P2" /\ m.resp # "ValidLatest" THEN {"UnprovenKeyAccepted"} ELSE {})
   \cup (IF out = "ok" /\ m.k = "P2" /\ (m.id \notin s.issued \/ m.id \in s.deleted \/ m.id \in s.expired) THEN {"UnknownOrExpiredAuthenticated"} ELSE {})
   \cup (IF out = "ok" /\ m.k = "P2" /\ <<c, s.pend[c]>> \in used THEN {"NonceAcceptedTwice"} ELSE {})
+  \* an out-of-order phase 2 (it names another id than the phase 1 its challenge answered) changed which client an
+  \* authenticated connection is authenticated as (on the tree before patches/C07-1 this is the named deviation
+  \* "crossIdReauth" of StepDev instead: there a connection could be re-authenticated under a second id in many ways)
+  \* / made it another client's control channel
+  \cup (IF "oneIdentity" \in Fixes /\ Flips(s, t, c, m, out) THEN {"IdentityFlipped"} ELSE {})
+  \cup (IF "oneIdentity" \in Fixes /\ Flips(s, t, c, m, out) /\ t.idx[m.id] = c /\ s.idx[m.id] # c THEN {"ControlChannelTakenOver"} ELSE {})
   \cup (IF m.type = "tunnel" /\ ch # {} THEN {"TunnelTypeChangedIndex"} ELSE {})
 
 StepDev(s, t, c, m, out) ==
+     (IF "oneIdentity" \notin Fixes /\ "k" \in DOMAIN m /\ Flips(s, t, c, m, out) THEN {"crossIdReauth"} ELSE {}) \cup
      (IF out = "chal" /\ t.idx # s.idx THEN {"p1InstallsAuthenticatedConn"} ELSE {})
   \cup (IF \E X \in ClientS : t.idx[X] = c /\ AuthOf(t, c) # X THEN {"staleIndexAfterReAuth"} ELSE {})
 
@@ -490,7 +510,7 @@ Bind(X) == /\ "Bind" \in Ops /\ Go /\ X \in st.issued /\ X \notin st.bound /\ X 
 Init ==
   /\ st = [acc |-> IF PreAccept THEN ConnS ELSE {}, sess |-> IF PreAccept THEN ConnS ELSE {},
            tcl |-> {}, reg |-> {},
-           auth |-> [c \in ConnS |-> None], pend |-> [c \in ConnS |-> 0], nn |-> [c \in ConnS |-> 0],
+           auth |-> [c \in ConnS |-> None], pend |-> [c \in ConnS |-> 0], chalid |-> [c \in ConnS |-> None], nn |-> [c \in ConnS |-> 0],
            idx |-> [X \in ClientS |-> None], issued |-> {}, expired |-> {}, bound |-> {}, banned |-> {}, black |-> {}, blackP |-> {},
            bperm |-> {}, blapsed |-> {}, banP |-> {}, bfgen |-> 0,
            corrupt |-> {}, blank |-> {}, rekeyed |-> {}, deleted |-> {}, bhow |-> [c \in ConnS |-> None], white |-> {}, whiteP |-> {}, ipgen |-> 0,
